@@ -541,3 +541,51 @@ func TestC03_R_SelectorsForThousandsOfPaths(t *testing.T) {
 		}
 	}
 }
+
+// Names that begin or end with white space next to their trimmed twins, resolved with the short-form selector and with
+// the builder: each path names exactly its own entry.
+func TestC03_R_WhiteSpaceNamesThroughBothSelectorForms(t *testing.T) {
+	names := []string{"report", "report ", " report", "t\t", "\nt", "t", "t ", " ", " ", "only-spaced "}
+	kids := map[string]*tnode{}
+	for i, n := range names {
+		kids[n] = c03File(3 + i)
+	}
+	for _, sharded := range []bool{false, true} {
+		root := c03Dir(sharded, kids)
+		st := NewStore()
+		if err := root.build(st); err != nil {
+			t.Fatal(err)
+		}
+		ls := st.LinkSystem()
+		pn, err := loadPlain(ls, root.Root)
+		if err != nil {
+			t.Fatal(err)
+		}
+		for _, short := range []bool{true, false} {
+			for _, n := range names {
+				spec := unixfsnode.UnixFSPathSelectorBuilder(n, unixfsnode.MatchUnixFSSelector, false)
+				if short {
+					spec = unixfsnode.UnixFSPathSelector(n)
+				}
+				sel, err := selector.CompileSelector(spec)
+				if err != nil {
+					t.Fatal(err)
+				}
+				var got []c03Match
+				prog := traversal.Progress{Cfg: &traversal.Config{Ctx: sessionCtx, LinkSystem: *ls, LinkTargetNodePrototypeChooser: protoChooser}}
+				if err := prog.WalkMatching(pn, sel, func(p traversal.Progress, nd datamodel.Node) error {
+					got = append(got, c03Match{p.Path.String(), nd})
+					return nil
+				}); err != nil {
+					t.Fatalf("C03: path %q (short form %v, sharded %v): %v", n, short, sharded, err)
+				}
+				if len(got) != 1 || got[0].Path != n {
+					t.Fatalf("C03: path %q (short form %v, sharded %v) gave %d matches %v, want exactly the entry", n, short, sharded, len(got), got)
+				}
+				if err := c03Describe(got[0].Node, kids[n]); err != nil {
+					t.Fatalf("C03: path %q (short form %v, sharded %v) matched another entity: %v", n, short, sharded, err)
+				}
+			}
+		}
+	}
+}
